@@ -5,7 +5,11 @@ SRC=${SEEDBASE:-/tmp/seed}/$1; DST=/verif/seeded/$2
 cd $SRC/wt || exit 2
 git diff > /tmp/confirm.diff
 cmp -s /tmp/confirm.diff $SRC/out/patch.diff || { echo "patch.diff differs from worktree diff"; diff /tmp/confirm.diff $SRC/out/patch.diff | head -5; }
-SUITE=$(PYTHONPATH=$SRC/wt/src /venv/bin/python -m pytest -q -p no:cacheprovider --timeout=900 -n 8 --deselect tests/test_io/test_web 2>&1 | tail -1)
+# test_sbml shares temp files between xdist workers and occasionally reports "errors" on any tree: retry those runs
+for attempt in 1 2 3; do
+  SUITE=$(PYTHONPATH=$SRC/wt/src /venv/bin/python -m pytest -q -p no:cacheprovider --timeout=900 -n 8 --deselect tests/test_io/test_web 2>&1 | tail -1)
+  case "$SUITE" in *error*) ;; *) break;; esac
+done
 echo "suite with change: $SUITE"
 (cd $SRC/wt && PYTHONPATH=$SRC/wt/src /venv/bin/python $SRC/out/demo.py > /tmp/demo_mod.log 2>&1); RC1=$?
 (cd /tmp && PYTHONPATH=/repo/src /venv/bin/python $SRC/out/demo.py > /tmp/demo_orig.log 2>&1); RC0=$?
